@@ -182,7 +182,7 @@ def make_hmc(h, d, events, mass="scalar", bounds=None, temperature=True, steps=1
 def make_ensemble(h, d, nw, events, bounds=None, max_attempts=2, symbolic_ctor=False):
     import inference.mcmc.ensemble as en
     import inference.mcmc.utilities as ut
-    h.patch(en, isfinite=funcs.isfinite, cov=funcs.cov)
+    h.patch(en, isfinite=funcs.isfinite, cov=funcs.cov, float64=object)
     h.patch(ut, np_divmod=stubs.np_divmod)
     post = recording_posterior(h, d, events)
     alpha = h.real("alpha", lo=1, lo_strict=True)
